@@ -4,6 +4,11 @@ import json, os
 here = os.path.dirname(os.path.dirname(os.path.abspath(__file__)))
 ALL = ['C%02d' % i for i in range(1, 21)]
 CLAIMED = {
+ 'C20': dict(
+   text='Theorems over the Gallina model of get_static_file and of both middlewares (engine reached iff the path lies under the normalised endpoint; otherwise a file exactly when the static mapping matches and the file exists, else wrapped app, else 404; the file served is a configured file or the configured directory name followed by a remainder of the request path with no .. segment, plus the index file; content type from the mapping or its extension; ASGI lifespan protocol) for all paths and mappings, no axioms; compared with WSGIApp/ASGIApp against a scratch tree holding a secret outside the roots on every run.',
+   note='Trusted: Coq kernel; hand-written model Static.v and its differential run; os.path.isfile is an oracle (a lexical normalisation of absolute paths stands in for the file system when the model is evaluated); ASCII paths; the /engine.io-without-slash difference between WSGIApp and ASGIApp is modelled, not judged.',
+   technique='Coq proof (induction over the prefix-stripping loop, case analysis) + model/implementation correspondence by vm_compute',
+   ref='5 C20'),
  'C19': dict(
    text='Theorems over the Gallina models of the response tail (Content-Encoding declared iff compression on, body >= threshold and offered, choosing the first offered gzip/deflate token; body = compressed original exactly when declared; undoing the declared encoding and UTF-8 returns the payload) and of the JSONP form: for every payload text and index the body parses, under a transcription of the ECMAScript string-literal grammar, as exactly one ___eio[i]("lit"); statement whose literal evaluates to the payload in UTF-16 - proved for all inputs with json.dumps string escaping modelled exactly, no axioms; compared with both servers on every run.',
    note='Trusted: Coq kernel; hand-written models Transform.v/Jsonp.v and their differential run; gzip/zlib/UTF-8 are oracles (hypotheses of c19_lossless), undone with the real libraries in the harness; q-values are ignored as the code does.',
@@ -31,7 +36,9 @@ CLAIMED = {
    ref='5 C17, Appendix E'),
 }
 FIXES = ['d92cdd4 fix: do not reuse the cached encoding of a binary packet across channel kinds', 'bfaf151 fix: keep deeply nested bracket text as text instead of raising RecursionError',
-         '49abbb1 fix: escape the JSONP payload as a JavaScript string literal']
+         '49abbb1 fix: escape the JSONP payload as a JavaScript string literal',
+         'e5ede54 fix: static file lookup for a request path without any slash', '335e1b2 fix: do not serve static files from outside the mapped directory',
+         '506079c fix: a static mapping that resolves to a directory is not a servable file']
 PENDING_REASON = 'model and theorems for this property are not built yet in this revision of /verif (work in progress, see DESIGN.md section 9); not a statement that the technique cannot apply'
 m = {
  'version': 1,
